@@ -229,7 +229,7 @@ def r02c(repo, chk, R="R02.c"):
 
 
 # ---------------------------------------------------------------------- R02.e
-def r02e(repo, chk):
+def r02e(repo, chk, R="R02.e"):
     g = repo.mod("generate_code")
     cf = g.func(f"{GEN_CLASS}.compile_function")
     chk.saw("generate_code", cf.qual)
@@ -253,7 +253,7 @@ def r02e(repo, chk):
         same_block = body is not None and any(fs in body for fs in flag_sets)
         # the rewritten instruction is checked to be a jal on the same path
         guards_jal = body is not None and any(isinstance(s, ast.If) and "jal" in norm(s.test) and any(isinstance(x, ast.Raise) for x in ast.walk(s)) for s in body)
-        chk.judge("R02.e", "generate_code:compile_function:rewrite jal->j sets the tail-call flag in the same block", same_block and guards_jal,
+        chk.judge(R, "generate_code:compile_function:rewrite jal->j sets the tail-call flag in the same block", same_block and guards_jal,
                   f"the rewrite {norm(rw)} and '{flag} = True' are not in one block (or the rewritten instruction is not verified to be a jal): "
                   f"'j ra' could be dropped without a tail jump, or kept after one", None, f"{g.path}:{rw.lineno} in {cf.qual}")
     # the rewrite applies only when neither the function being compiled nor the callee is inlined
@@ -283,11 +283,11 @@ def r02e(repo, chk):
                         tg = o.tags(rn, live_ids(cfg, t)[0] if live_ids(cfg, t) else ids[0])
                         who = "callee" if any(x == "func" or x.startswith("value") for x in tg) else ("self" if any(x.startswith("param:") or x.startswith("call:") for x in tg) or norm(rn) in ("func_data", "sym_data") else "?")
                         classes[who] = classes.get(who, False) or holds_nand
-        chk.judge("R02.e", "generate_code:compile_function:tail call only if the CALLEE is not inlined", classes.get("callee") is True,
+        chk.judge(R, "generate_code:compile_function:tail call only if the CALLEE is not inlined", classes.get("callee") is True,
                   "the rewrite jal->j is not guarded by 'not (inline_functions and callee called once)' for the symbol of the called function: "
                   "a tail call to a function that gets inlined leaves a 'j' to a label that does not exist / drops the caller's 'j ra'",
                   {"guards_by_subject": classes}, f"{g.path}:{rw.lineno} in {cf.qual}")
-        chk.judge("R02.e", "generate_code:compile_function:tail call only if the function itself is emitted as a region", classes.get("self") is True,
+        chk.judge(R, "generate_code:compile_function:tail call only if the function itself is emitted as a region", classes.get("self") is True,
                   "the rewrite jal->j is not guarded by 'not (inline_functions and this function called once)': an inlined function's last call "
                   "would become a jump out of the code it was pasted into", {"guards_by_subject": classes}, f"{g.path}:{rw.lineno} in {cf.qual}")
     for fs in flag_sets:
@@ -296,7 +296,7 @@ def r02e(repo, chk):
         for fld in ("body", "orelse"):
             if fs in getattr(par, fld, []):
                 body = getattr(par, fld)
-        chk.judge("R02.e", "generate_code:compile_function:the flag is set only where the rewrite happens", body is not None and any(rw in body for rw in rewrites),
+        chk.judge(R, "generate_code:compile_function:the flag is set only where the rewrite happens", body is not None and any(rw in body for rw in rewrites),
                   f"'{flag} = True' without the jal->j rewrite in the same block: the function would end without 'j ra' and without a tail jump", None,
                   f"{g.path}:{fs.lineno} in {cf.qual}")
     # the final 'j ra' depends on the flag
@@ -308,6 +308,6 @@ def r02e(repo, chk):
         while par is not None and not isinstance(par, ast.If):
             par = getattr(par, "parent", None)
         mentions = par is not None and any(isinstance(n, ast.Name) and n.id == flag for n in ast.walk(par.test))
-        chk.judge("R02.e", "generate_code:compile_function:the final 'j ra' is suppressed by that flag only", mentions,
+        chk.judge(R, "generate_code:compile_function:the final 'j ra' is suppressed by that flag only", mentions,
                   f"the condition of the final 'j ra' does not mention {flag}: after a tail call the function would return twice or never", None, f.where())
     # tail calls only for functions that are emitted as a region (not inlined): checked as part of R02.c (negated predicate)
